@@ -130,9 +130,22 @@ fn store(sink: &mut Sink, rng: &mut Rng, thorough: bool) {
   for _ in 0..(if thorough { 3000 } else { 80 }) {
     let d = rng.below(60) as u8;
     let n = 1 + rng.below(5) as usize;
-    let vals: Vec<u64> = (0..n).map(|_| (929u64 << 52) + rng.below((256u64 << 52) - 1)).collect();
+    let mut vals: Vec<u64> = (0..n).map(|_| (929u64 << 52) + rng.below((256u64 << 52) - 1)).collect();
+    // 1 MOC out of 4 contains the LAST cell of its depth (FREQ_MAX or one of its nearest smaller values) and
+    // 1 out of 4 the FIRST one (FREQ_MIN): the Hz ranges end / start on the bounds of the domain
+    match rng.below(4) {
+      0 => vals.push(((1184u64 << 52) | ((1u64 << 52) - 1)) - rng.below(3)),
+      1 => vals.push((929u64 << 52) + rng.below(3)),
+      _ => {}
+    }
     let txt = vals.iter().map(|x| x.to_string()).collect::<Vec<_>>().join(",");
-    if let Ok(idx) = st.from_hz_values(d, vals.iter().map(|b| f64::from_bits(*b))) {
+    let made = std::panic::catch_unwind(AssertUnwindSafe(|| st.from_hz_values(d, vals.iter().map(|b| f64::from_bits(*b)))));
+    if made.is_err() {
+      // every value is inside the supported interval: a panic here is a rejection of an accepted value
+      sink.emit(&format!("f_moc 64 {} 100000 {}", d, txt), "panic", true);
+      continue;
+    }
+    if let Ok(Ok(idx)) = made {
       let rs = st.to_ranges(idx).unwrap_or_default();
       sink.emit(&format!("f_moc 64 {} 100000 {}", d, txt), &format!("{}|{}", d, fmt_ranges(&rs)), true);
       if let Ok(hz) = st.to_hz_ranges(idx) {
